@@ -356,6 +356,21 @@ def run(p):
             o = C.CoordGeo(to_notation(lat, s), to_notation(lon, s), gen_height(rng), gen_height(rng))
             for t in NOTNAMES:
                 check_notation(p, o, ('notation', {'notation': t}))
+    # 2b. the SAME digits read in different notations (23.4012 as decimal degrees, as HP 23 deg 40' 12", as 23.4012 gon) are
+    #     different positions; each is converted to every notation straight after the others
+    for _ in range(p.n(30, 800)):
+        d_lat = rng.randrange(0, 80)
+        d_lon = rng.randrange(0, 170)
+        la = float(f'{"-" if rng.random() < 0.5 else ""}{d_lat}.{rng.randrange(60):02}{rng.randrange(60):02}')
+        lo = float(f'{d_lon}.{rng.randrange(60):02}{rng.randrange(60):02}')
+        t = rng.choice(NOTNAMES)
+        for sname in ('float', 'HPAngle', 'GONAngle', 'DECAngle', 'HPAngle', 'float'):
+            try:
+                o = C.CoordGeo(NOTS[sname](la), NOTS[sname](lo), gen_height(rng), gen_height(rng))
+            except Exception:  # noqa
+                continue
+            check_notation(p, o, ('notation', {'notation': t}))
+            p.stats.add('notation:same-digits-other-notation')
     # 3. single conversion calls: every method x ellipsoid x projection x notation x heights
     for _ in range(p.n(4000, 150000)):
         en, pn = rng.choice(['grs80', 'ans']), rng.choice(['utm', 'isg'])
@@ -383,6 +398,9 @@ def run(p):
                 twins.append(C.CoordCart(o.xaxis, o.yaxis, o.zaxis, gen_height(rng)))
             else:
                 twins.append(C.CoordTM(o.zone, o.east, o.north, gen_height(rng), gen_height(rng), o.hemi_north, o.projection))
+                if rng.random() < 0.5:
+                    # the same zone, easting and northing read in the OTHER hemisphere: another point altogether
+                    twins.append(C.CoordTM(o.zone, o.east, o.north, o.ell_ht, o.orth_ht, not o.hemi_north, o.projection))
         except Exception:  # noqa
             pass
         for i in range(rng.randrange(2, 6)):
